@@ -31,6 +31,7 @@ def parseSubset (s : String) : Option Subset :=
 structure St where
   cfg : Option (ArrCfg Elem) := none
   st : KV := []
+  abs : AArr Elem := fun _ => []     -- the abstract array of C01 (specification oracle)
 
 def parseCfg (l : Line) : Option (ArrCfg Elem) := do
   let shape ← l.nl "shape"
@@ -57,13 +58,37 @@ def optVal (r : Option (List Elem)) : String :=
   | some xs => "val " ++ showElems xs
   | none => "err"
 
-def handle (st : St) (l : Line) : Option (St × List String) := do
+/-- the write operation a request denotes (for the abstract array) -/
+def writeOpOf (verb : String) (l : Line) : Option (WriteOp Elem) := do
+  match verb with
+  | "store_chunk" => pure (.storeChunk (← l.nl "c") (← parseElems (← l.get "data")))
+  | "store_chunks" => pure (.storeChunks (← parseSubset (← l.get "box")) (← parseElems (← l.get "data")))
+  | "store_chunk_subset" => pure (.storeChunkSubset (← l.nl "c") (← parseSubset (← l.get "r")) (← parseElems (← l.get "data")))
+  | "store_array_subset" => pure (.storeArraySubset (← parseSubset (← l.get "r")) (← parseElems (← l.get "data")))
+  | "erase_chunk" => pure (.eraseChunk (← l.nl "c"))
+  | "erase_chunks" => pure (.eraseChunks (← parseSubset (← l.get "box")))
+  | _ => none
+
+/-- what the abstract array says a read returns (none = not a read / region not expressible) -/
+def specRead (cfg : ArrCfg Elem) (a : AArr Elem) (verb : String) (l : Line) : Option String := do
+  match verb with
+  | "retrieve_chunk" =>
+    let cs ← cfg.chunkSubset (← l.nl "c"); pure ("val " ++ showElems (a.read cs))
+  | "retrieve_chunks" =>
+    let region ← cfg.grid.chunksSubset (← parseSubset (← l.get "box")); pure ("val " ++ showElems (a.read region))
+  | "retrieve_chunk_subset" =>
+    let cs ← cfg.chunkSubset (← l.nl "c"); let r ← parseSubset (← l.get "r")
+    pure ("val " ++ showElems (a.read ⟨addIdx r.start cs.start, r.shape⟩))
+  | "retrieve_array_subset" => pure ("val " ++ showElems (a.read (← parseSubset (← l.get "r"))))
+  | _ => none
+
+def handleCore (st : St) (l : Line) : Option (St × List String) := do
   let v1 ← l.verbs[1]?
   if v1 == "cfg" then
     -- a configuration the implementation rejected is skipped as a whole
     if l.outcome.startsWith "err-open" then pure ({ cfg := none, st := [] }, ["any"]) else
     let cfg ← parseCfg l
-    pure ({ cfg := some cfg, st := [] }, ["ok"])
+    pure ({ cfg := some cfg, st := [], abs := fun _ => cfg.fill }, ["ok"])
   else
     match st.cfg with
     | none => pure (st, ["skip"])
@@ -92,5 +117,21 @@ def handle (st : St) (l : Line) : Option (St × List String) := do
       | "keys" => pure (st, ["keys " ++ (if st.st.isEmpty then "~" else ",".intercalate (st.st.keys.map String.ofList))])
       | "reopen" => pure (st, ["ok"])
       | _ => none
+
+/-- model step + cross-check of the model against the abstract specification of C01 (they are proved equal;
+a note is emitted if they ever differ at run time) -/
+def handle (st : St) (l : Line) : Option (St × List String × Option String) := do
+  let (st', acc) ← handleCore st l
+  match st.cfg, l.verbs[2]? with
+  | some cfg, some verb =>
+    -- advance the abstract array on accepted writes
+    let abs' := match writeOpOf verb l with
+      | some op => if acc == ["ok"] then cfg.absOp st.abs op else st.abs
+      | none => st.abs
+    let note := match specRead cfg st.abs verb l with
+      | some s => if acc == [s] || acc == ["err"] then none else some ("model differs from abstract array: spec=" ++ s)
+      | none => none
+    pure ({ st' with abs := abs' }, acc, note)
+  | _, _ => pure (st', acc, none)
 
 end Zarrs.DriverC01
